@@ -458,6 +458,9 @@ def gen_c19(rng, tier):
                             kinds.add(w[1])
                 if img and kinds:
                     harvested.append((img, sorted(kinds)))
+    # (not the 2^16-entry tables of the `*_big` generators: their documents run to megabytes of text, which says
+    # nothing new about the serializer and exceeds the answer caps of the runner)
+    harvested = [h for h in harvested if len(h[0]) < 2 * (128 << 10)]
     lim = 250 if tier == "quick" else 5000
     if len(harvested) > lim:
         harvested = [harvested[i] for i in sorted(rng.sample(range(len(harvested)), lim))]
